@@ -17,8 +17,10 @@ import (
 var keys = []string{"required", "exist", "either", "botheq", "to", "ge", "le", "oto", "gt", "lt", "eq", "noeq", "in", "include", "phone", "email", "idcard", "year", "year2month",
 	"date", "datetime", "int", "ints", "float", "re", "ip", "ipv4", "ipv6", "unique", "json", "prefix", "suffix", "file", "dir"}
 
-var rawValues = []string{"", "1", "1~10", "a/b", "'/, ,:'", "-", "中", "a=b", "0", "'x'", "''"}
-var messages = []string{"\x00none", "m", "ab", "中", "说明文字", "a=b", "x~y(z)/w", "'a,b'", "'需要,同时'", "=", "a|b", "1", "字"}
+// 大 (U+5927), 听 (U+542C), 丯 (U+4E2F), 丽 (U+4E3D), 乼 (U+4E7C), ħ (U+0127): runes whose low code-point byte equals a syntax
+// byte (' , / = |) - a splitter or parser that narrows runes to bytes confuses them with the syntax characters.
+var rawValues = []string{"", "1", "1~10", "a/b", "'/, ,:'", "-", "中", "a=b", "0", "'x'", "''", "(a)/(b)", "()", "(a", "b)", "大/听", "'大,听'"}
+var messages = []string{"\x00none", "m", "ab", "中", "说明文字", "a=b", "x~y(z)/w", "'a,b'", "'需要,同时'", "=", "a|b", "1", "字", "必须大于1", "请听说明", "丽丯乼ħ", "'大,听'", "(x)"}
 
 var zh = regexp.MustCompile("[一-龥]")
 
@@ -200,7 +202,7 @@ func run(c *runner.Ctx) {
 	var menu []single
 	for _, k := range []string{"required", "to", "in", "re", "datetime", "phone"} {
 		for _, v := range []string{"", "1~10", "'/, ,:'", "a/b", "''"} {
-			for _, m := range []string{"\x00none", "ab", "中", "'a,b'", "'需要,同时'", "x~y(z)/w"} {
+			for _, m := range []string{"\x00none", "ab", "中", "'a,b'", "'需要,同时'", "x~y(z)/w", "必须大于1", "请听说明"} {
 				s := single{key: k, val: v, msg: m, hasMsg: m != "\x00none"}
 				if !s.hasMsg {
 					s.msg = ""
@@ -339,14 +341,16 @@ func run(c *runner.Ctx) {
 	noLoss("ascii", []string{"a", ",", "'", "|", "="}, n1)
 	noLoss("cjk-bytes", []string{"a", ",", "'", "|", "=", "\xe4", "\xb8", "\xad"}, n2)
 	noLoss("cjk", []string{"a", ",", "'", "中", "b"}, n1-2)
+	noLoss("cjk-low-byte-is-syntax", []string{"a", ",", "'", "大", "听", "丯", "ħ"}, n1-3)
+	noLoss("cjk-low-byte-is-syntax-2", []string{",", "'", "|", "=", "丽", "乼", "Ĭ"}, n1-3)
 }
 
 func main() {
 	runner.Main(runner.Config{
 		Property:  "C14",
 		Technique: "bounded-exhaustive enumeration of built rule lists (round trip) and of all strings up to a length (splitter no-loss law, fast-vs-slow path differential)",
-		Rule: "(1) every (key,value,message) single rule over 34 keys x 10 values x 13 messages built with GenValidKV, accumulated with RM.Set in three ways, split and parsed back; all lists of length 2 and 3 over a reduced menu with quoted commas; " +
-			"(2) every string of length<=n over {a , ' | =} (and the bytes of a CJK rune) for separators ',' and '/': join(pieces)=input up to one trailing separator, no split inside balanced quotes, fast path = slow path; " +
+		Rule: "(1) every (key,value,message) single rule over 34 keys x 17 values x 18 messages (incl. bracketed values (a)/(b), (), and CJK runes whose low code-point byte is a syntax byte) built with GenValidKV, accumulated with RM.Set in three ways, split and parsed back; all lists of length 2 and 3 over a reduced menu with quoted commas; " +
+			"(2) every string of length<=n over {a , ' | =} (and the bytes of a CJK rune, and runes whose low code-point byte equals ' , / = |) for separators ',' and '/': join(pieces)=input up to one trailing separator, no split inside balanced quotes, fast path = slow path; " +
 			"non-trivial = lists with more than one rule or quoted commas / '=' in messages; strings containing a quote",
 		Assumptions: []string{"commas occur only inside single quotes in values and messages (as documented)", "values do not contain '|'"},
 		Run:         run,
